@@ -737,9 +737,66 @@ def canon_loads(obs, T, oids, bounds):
     return ';'.join(out)
 
 
+FS_FAULTS = ('gc', 'toPacktime', 'copyRest', 'copyOne1', 'copyOne2')
+
+
+class Injected(Exception):
+    pass
+
+
+def inject_fault(fault, referencesf):
+    """install a fault at a packer phase; returns (undo function, referencesf to pass).  FileStorage:
+    GC.findReachable / after copyToPacktime / copyRest / n-th copyOne raise OSError (disk full) or a
+    non-OSError; MappingStorage: the k-th referencesf call of the gc sweep raises."""
+    import errno
+    fspack = sys.modules['ZODB.FileStorage.fspack']
+    saved = []
+
+    def patch(cls, name, fn):
+        saved.append((cls, name, getattr(cls, name)))
+        setattr(cls, name, fn)
+    if fault == 'gc':
+        patch(fspack.GC, 'findReachable', lambda self: (_ for _ in ()).throw(Injected('gc')))
+    elif fault == 'toPacktime':
+        orig = fspack.FileStoragePacker.copyToPacktime
+
+        def copyToPacktime(self):
+            orig(self)
+            raise OSError(errno.ENOSPC, 'No space left on device (injected)')
+        patch(fspack.FileStoragePacker, 'copyToPacktime', copyToPacktime)
+    elif fault == 'copyRest':
+        patch(fspack.FileStoragePacker, 'copyRest',
+              lambda self, ipos: (_ for _ in ()).throw(OSError(errno.ENOSPC, 'injected')))
+    elif fault in ('copyOne1', 'copyOne2'):
+        orig1 = fspack.FileStoragePacker.copyOne
+        n = dict(n=0)
+
+        def copyOne(self, ipos):
+            n['n'] += 1
+            if n['n'] >= int(fault[-1]):
+                raise (Injected('copyOne') if fault == 'copyOne2' else OSError(errno.EIO, 'injected'))
+            return orig1(self, ipos)
+        patch(fspack.FileStoragePacker, 'copyOne', copyOne)
+    elif fault.startswith('refs'):
+        k = dict(n=0, at=int(fault[4:]))
+        inner = referencesf
+
+        def referencesf(p, oids=None):           # noqa: F811
+            k['n'] += 1
+            if k['n'] == k['at']:
+                raise Injected('referencesf')
+            return inner(p, oids)
+
+    def undo():
+        for cls, name, v in saved:
+            setattr(cls, name, v)
+    return undo, referencesf
+
+
 def run_case(case, tmp, want_model=True):
     """Execute one (ops, kind, seq) on the real code.  Returns a dict with the oracle's findings,
-    the model script and the real observations the model must reproduce."""
+    the model script and the real observations the model must reproduce.
+    seq entries: [T, gc] or [T, gc, fault] (a pack with a fault injected at a packer phase)."""
     global Z
     if Z is None:
         Z = _zodb()
@@ -751,44 +808,120 @@ def run_case(case, tmp, want_model=True):
     os.makedirs(d)
     path = os.path.join(d, 'Data.fs')
     truth = Truth()
-    st = open_storage(kind, path, case.get('cfg'))
+    base = None
+    buddy = None
+    view = None
+    hexed = kind in HEXED
     try:
-        done, serial = apply_ops(st, kind, ops, truth)
-        res['log'] = done
         ms = [op['m'] for op in ops]
+        half = len(ops) // 2
+        if kind == 'demobase':
+            # the first half of the history lives in the base, the rest in the changes FileStorage
+            base = Z['MS']()
+            done0, serial = apply_ops(base, 'map', ops[:half], truth)
+            st = open_storage(kind, path, base=base)
+            done, serial = apply_ops(st, kind, ops[half:], truth, serial)
+            done = done0 + done
+        else:
+            st = open_storage(kind, path, case.get('cfg'))
+            done, serial = apply_ops(st, kind, ops[:half], truth)
+            if kind in FSLIKE and case.get('pre_index') == 'stale':
+                fs_of(st, kind)._save_index()
+                shutil.copy(path + '.index', path + '.index.stale')
+            done2, serial = apply_ops(st, kind, ops[half:], truth, serial)
+            done += done2
+        res['log'] = done
         bounds = sorted(set(ms + [max(ms) + 1])) if ms else [1, 4, 9]
         oids = all_oids(ops)
-        before = observe(st, oids, bounds)
+        if kind == 'mvccmap':
+            view = st.new_instance()              # a second instance with its own (polled) snapshot
+            view.poll_invalidations()
+        before = observe(st, oids, bounds, view)
         first = before
+        inner = fs_of(st, kind)
+        two = inner is not st and kind == 'demobase'     # the model gets the packed storage's own history
+        before_m = observe(inner, oids, bounds) if two else before
         if want_model:
-            res['lines'] += model_lines_history(before['listing'])
+            res['lines'] += model_lines_history(before_m['listing'], hexed)
             res['expect'] += [None] * (len(res['lines']) - 2) + ['sorted=1 backok=1', None]
         if kind in FSLIKE:
             st.close()
             shutil.copy(path, path + '.orig')
-            st = open_storage(kind, path, case.get('cfg'))
+            # open for the pack with the saved index, without one (scan), or with a stale one
+            pi = case.get('pre_index')
+            if pi == 'none' and os.path.exists(path + '.index'):
+                os.remove(path + '.index')
+            elif pi == 'stale' and os.path.exists(path + '.index.stale'):
+                shutil.copy(path + '.index.stale', path + '.index')
+            if pi:
+                counts['pre-index:' + pi] = 1
+            st = open_storage(kind, path, case.get('cfg'), base=base)
+            inner = fs_of(st, kind)
+            if pi:
+                chk = observe(st, oids, bounds)
+                if (full_listing(chk['listing']) != full_listing(before['listing'])
+                        or chk['loads'] != before['loads'] or chk['cur'] != before['cur']):
+                    res['bad'].append(('C07:reopen-differs', 'answers differ after reopening the unpacked %s '
+                                       'with index mode %s' % (kind, pi)))
+        if case.get('buddy'):
+            # a second storage of the same class alive in the process, packed at other times in between
+            bpath = os.path.join(d, 'Buddy.fs')
+            buddy = open_storage('fs' if kind in FSLIKE else 'map', bpath)
+            btruth = Truth()
+            apply_ops(buddy, 'fs' if kind in FSLIKE else 'map', ops[:max(1, half)], btruth)
         maxT = None
         later_changed = False
         crossing = False
         freed = False
-        for i, (T, gc) in enumerate(seq):
+        for i, step in enumerate(seq):
+            T, gc = step[0], step[1]
+            fault = step[2] if len(step) > 2 else None
             if i == 0 and want_model:
                 res['lines'].append('nr %d' % T)
                 res['expect'].append(('nr', T, gc))
             if kind in FSLIKE and os.path.exists(path + '.old'):
                 os.remove(path + '.old')
-            via = case.get('via') if (gc and kind != 'demofs') else None
+            if buddy is not None:
+                bT = (T * 7 + 3 * i) % (max(bounds) + 1) + 1
+                bb = observe(buddy, oids, bounds)
+                bo = do_pack(buddy, bT, 1 - gc)
+                ba = observe(buddy, oids, bounds)
+                res['bad'] += [(sg, 'second storage in the process: ' + w) for sg, w in
+                               judge_pack(bb, ba, bT, 1 - gc, 'fs' if kind in FSLIKE else 'map', bo, btruth,
+                                          bounds, counts)]
+                if os.path.exists(bpath + '.old'):
+                    os.remove(bpath + '.old')
+            via = case.get('via') if (gc and kind in ('fs', 'map', 'demo') and not fault) else None
             cfg = case.get('cfg') if kind == 'fs' else None
             if cfg:
                 if bool(gc) != bool(cfg['pack_gc']):
                     raise InfraError('case with a configured storage must use its pack-gc in every step')
-                via = case.get('via') or ['default']
-                counts['cfg:pack-gc=%d,keep-old=%d' % (cfg['pack_gc'], cfg['keep_old'])] = \
-                    counts.get('cfg:pack-gc=%d,keep-old=%d' % (cfg['pack_gc'], cfg['keep_old']), 0) + 1
+                via = via or (None if fault else ['default'])
+                key = 'cfg:%s:pack-gc=%d,keep-old=%d' % ('ctor' if cfg.get('ctor') else 'config',
+                                                         cfg['pack_gc'], cfg['keep_old'])
+                counts[key] = counts.get(key, 0) + 1
             ino0 = os.stat(path).st_ino if kind in FSLIKE else None
             if via:
                 counts['via:%s' % via[0]] = counts.get('via:%s' % via[0], 0) + 1
-            outcome = do_pack(st, T, gc, case.get('tz'), via)
+            if fault:
+                undo_fault, refsf = inject_fault(fault, Z['referencesf'])
+                try:
+                    try:
+                        st.pack(real_time(T), refsf, gc=bool(gc))
+                        outcome = 'done'
+                    except Injected:
+                        outcome = 'err:Injected'
+                    except OSError as e:
+                        outcome = 'err:Injected' if 'injected' in str(e) else 'err:Other(OSError)'
+                    except Exception as e:
+                        outcome = {'KeyError': 'err:KeyError', 'POSKeyError': 'err:KeyError',
+                                   'ValueError': 'err:ValueError', 'TypeError': 'err:TypeError'}.get(
+                            type(e).__name__, 'err:Other(%s)' % type(e).__name__)
+                finally:
+                    undo_fault()
+                counts['fault:%s:%s' % (fault, outcome)] = counts.get('fault:%s:%s' % (fault, outcome), 0) + 1
+            else:
+                outcome = do_pack(st, T, gc, case.get('tz'), via)
             if case.get('tz'):
                 counts['tz:' + case['tz']] = counts.get('tz:' + case['tz'], 0) + 1
             if kind in FSLIKE and outcome == 'done':
@@ -802,20 +935,41 @@ def run_case(case, tmp, want_model=True):
                                        % (T, kind, 'rewrote the file' if outcome == 'ok' else 'changed nothing',
                                           keep_old, 'exists' if os.path.exists(path + '.old') else 'is missing')))
             counts['pack:%s:%s' % (kind, outcome)] = counts.get('pack:%s:%s' % (kind, outcome), 0) + 1
-            after = observe(st, oids, bounds)
-            if maxT is not None and T <= maxT and all(g == gc for _, g in seq[:i + 1]):
+            after = observe(st, oids, bounds, view)
+            after_m = observe(inner, oids, bounds) if two else after
+            # iterator(start, stop) with bounds equal to existing tids
+            later = [t['m'] for t in after['listing'] if t['m'] > T]
+            if later:
+                try:
+                    it = st.iterator(real_tid(later[0]), real_tid(later[-1]))
+                    got = [model_time(t.tid) for t in it]
+                    if hasattr(it, 'close'):
+                        it.close()
+                except Exception as e:
+                    got = errkind(e)
+                if got != later:
+                    res['bad'].append(('C07:later-transaction-changed',
+                                       'iterator(start=tid %d, stop=tid %d) after pack(T=%d) on %s lists %r, not %r'
+                                       % (later[0], later[-1], T, kind, got, later)))
+            same_gc = all(x[1] == gc for x in seq[:i + 1])
+            if maxT is not None and T <= maxT and same_gc and outcome != 'err:Injected':
                 res['bad'] += judge_repack(before, after, T, maxT, gc, kind, outcome)
-            # DemoStorage(changes=FileStorage) refuses gc (TypeError) — and, on this tree, every pack
-            # (AttributeError: _temporary_changes): a refusal must leave everything as it was
-            demo_refused = kind == 'demofs' and outcome in ('err:TypeError', 'err:Other(AttributeError)')
+            # DemoStorage(changes=FileStorage) refuses gc (TypeError): a refusal must leave everything as it was
+            demo_refused = kind in DEMOFS and outcome in ('err:TypeError', 'err:Other(AttributeError)')
             res['bad'] += judge_pack(before, after, T, gc, kind, outcome, truth, bounds, counts)
             if any(bk is not None and bk <= T < t['m'] for t in before['listing'] for _, _, bk in t['recs']):
                 crossing = True
             if len(rec_set(after['listing'])) < len(rec_set(before['listing'])):
                 freed = True
             if want_model:
-                mgc = gc if kind != 'demofs' else 0     # demofs delegates with gc=False
-                if demo_refused:
+                mgc = gc if kind not in DEMOFS else 0   # DemoStorage with a base delegates with gc=False
+                if outcome == 'err:Injected':
+                    # a FileStorage pack that fails changes nothing; a MappingStorage whose sweep fails has
+                    # done step 1 and remembers the pack time: exactly the model's gc-off pack
+                    if kind in MAPLIKE:
+                        res['lines'].append('map.pack %d 0' % T)
+                        res['expect'].append(('mapout', 'done'))
+                elif demo_refused:
                     pass                                # refused by DemoStorage itself: model not consulted
                 else:
                     res['lines'].append('%s.pack %d %d' % ('map' if kind in MAPLIKE else 'fs', T, mgc))
@@ -824,15 +978,15 @@ def run_case(case, tmp, want_model=True):
                     else:
                         res['expect'].append(('fsout', outcome))
                 res['lines'].append('dump')
-                res['expect'].append(canon_dump(after['listing']))
+                res['expect'].append(canon_dump(after_m['listing']))
                 # (a packed FileStorage answers b <= an earlier pack time by prev-chasing through
                 #  records whose prev is 0: outside the property, not compared)
                 Tc = T if maxT is None else max(T, maxT)
                 res['lines'].append('loads %d %s %s' % (Tc, ','.join(map(str, oids)), ','.join(map(str, bounds))))
-                res['expect'].append(canon_loads(after, Tc, oids, bounds))
+                res['expect'].append(canon_loads(after_m, Tc, oids, bounds))
             # "packing again" presupposes a pack that was carried out: FileStorage keeps no record of a
             # pack that freed nothing, so a later pack to an earlier time is then judged as a first pack
-            if outcome in ('ok', 'done'):
+            if outcome in ('ok', 'done') or (outcome == 'err:Injected' and kind in MAPLIKE):
                 maxT = T if maxT is None else max(maxT, T)
             if i > 0 and full_listing(before['listing']) != full_listing(after['listing']):
                 later_changed = True
@@ -843,24 +997,28 @@ def run_case(case, tmp, want_model=True):
             st.close()
             if case.get('drop_index') and os.path.exists(path + '.index'):
                 os.remove(path + '.index')
-            st = open_storage(kind, path, case.get('cfg'))
+            st = open_storage(kind, path, case.get('cfg'), base=base)
             again = observe(st, oids, bounds)
             if (full_listing(again['listing']) != full_listing(before['listing'])
                     or again['loads'] != before['loads'] or again['cur'] != before['cur']
-                    or again['ser'] != before['ser']):
+                    or again['ser'] != before['ser'] or again['hist'] != before['hist']
+                    or again['undolog'] != before['undolog']):
                 res['bad'].append(('C07:reopen-differs', 'answers differ after close/reopen of the packed %s' % kind))
             # undo series of the transactions after the pack time, newest first
             T0 = seq[0][0]
-            if (maxT is not None and T0 == maxT and not later_changed
+            if (maxT is not None and T0 == maxT and not later_changed and kind != 'demobase'
+                    and not any(len(x) > 2 for x in seq)
                     and not any(sig == SIG_MAP_KEYERROR for sig, _ in res['bad'])):
                 res['bad'] += undo_series(st, kind, path, first, T0, seq[0][1], oids, truth, counts, serial)
         if res['bad'] or res['nontrivial']:
             res['sample'] = dict(kind=kind, seq=seq, ops=ops[:6], outcomes=[k for k in counts if k.startswith('pack:')])
     finally:
-        try:
-            st.close()
-        except Exception:
-            pass
+        for x in (locals().get('st'), buddy, base):
+            try:
+                if x is not None:
+                    x.close()
+            except Exception:
+                pass
         shutil.rmtree(d, ignore_errors=True)
     return res
 
